@@ -66,6 +66,8 @@ fn budget(tier: Tier) -> Budget {
         max_points: tier.pick(160, 400),
         c04_depth: tier.pick(2, 3),
         c04_every: 1,
+        single_flips: 24,
+        tail_only: false,
     }
 }
 
@@ -106,12 +108,41 @@ pub fn run(id: &'static str, tier: Tier, seed: u64, replay: Option<&str>) -> i32
         }
         let mut st = CrashStats::default();
         let fp = env::fnv(&serde_json::to_vec(case).unwrap());
-        let f = crash::explore(&run, case, id, &budget(tier), &mut st, fp);
+        if case.cfg.dev.blocks() > 3000 && std::env::var("FXV_DEBUG_MASS").is_ok() {
+            let mut counts = Vec::new();
+            let mut markers = 0;
+            for e in &run.entries {
+                if let crate::trace::Entry::Write { off, data, .. } = e {
+                    let b = off / 4096;
+                    if (1..7).contains(&b) && data.len() >= 40 {
+                        counts.push(u32::from_le_bytes(data[28..32].try_into().unwrap_or([0; 4])));
+                    }
+                    if b >= 16 && data.starts_with(b"\0DELETED") {
+                        markers += 1;
+                    }
+                }
+            }
+            eprintln!("mass workload: {} trace entries, {} marker writes, journal header words {:?}", run.entries.len(), markers, &counts[counts.len().saturating_sub(12)..]);
+        }
+        // very large images (mass deletion): fewer crash points and single-write flips
+        let mut bud = budget(tier);
+        if case.cfg.dev.blocks() > 3000 {
+            bud.max_points = tier.pick(16, 120);
+            bud.tail_only = true;
+            bud.single_flips = 2;
+            bud.extra_masks = 1;
+            bud.nested_per_workload = 0;
+        }
+        let f = crash::explore(&run, case, id, &bud, &mut st, fp);
         if counting {
             w2.fetch_add(1, Ordering::Relaxed);
             *c2.lock().unwrap().entry(config_label(&case.cfg)).or_insert(0) += 1;
             let mut t = t2.lock().unwrap();
             t.merge(&st);
+            if case.cfg.dev.blocks() > 3000 {
+                *t.counters.entry("wl.mass_retirement_workload".to_string()).or_insert(0) += 1;
+                *t.counters.entry("wl.mass_retirement_images".to_string()).or_insert(0) += st.images;
+            }
             for (k, v) in &run.stats.events {
                 *t.counters.entry(format!("wl.{k}")).or_insert(0) += v;
             }
@@ -138,7 +169,7 @@ pub fn run(id: &'static str, tier: Tier, seed: u64, replay: Option<&str>) -> i32
     // one workload in ten works on 2-3 keys with values of 200-600 blocks on a 2400-block device:
     // extents beyond one retirement write (256 blocks), multi-write marker chains, long replays
     let big = crate::ops::wide_extent_strategy(vec![1, 2, 3, 3]);
-    let strategy = if id == "C04" { proptest::strategy::Union::new_weighted(vec![(6, case_strategy(&b)), (1, big)]).boxed() } else { proptest::strategy::Union::new_weighted(vec![(7, case_strategy(&b)), (2, wide), (1, big)]).boxed() };
+    let strategy = if id == "C04" { proptest::strategy::Union::new_weighted(vec![(6, case_strategy(&b)), (1, big)]).boxed() } else { proptest::strategy::Union::new_weighted(vec![(70, case_strategy(&b)), (20, wide), (10, big), (3, crate::ops::mass_delete_strategy())]).boxed() };
     let mut found = run_lanes(strategy, cases, tier.pick(40, 80), seed, env::threads(), check);
     env::wait_reaper();
     // C04 only: images synthesised with the codec to force every repair kind (duplicates in both
@@ -185,7 +216,7 @@ pub fn run(id: &'static str, tier: Tier, seed: u64, replay: Option<&str>) -> i32
         )
             .boxed();
         if let Some((v, msg)) = run_lanes(strat, tier.pick(320, 6000), 200, seed ^ 0x51, env::threads(), synth_check) {
-            synth_fail = Some((crate::props::c15::MigCase { source: crate::props::c15::Source::Synth { version: v.0, data_blocks: 0, items: v.1, journal_items: v.2, plain_meta: false }, allow_ambiguous: v.3, dest: crate::props::c15::DestKind::Absent, touch_source: false }, msg));
+            synth_fail = Some((crate::props::c15::MigCase { source: crate::props::c15::Source::Synth { version: v.0, data_blocks: 0, items: v.1, journal_items: v.2, plain_meta: false }, allow_ambiguous: v.3, dest: crate::props::c15::DestKind::Absent, touch_source: false, plant_dest: false }, msg));
         }
         env::wait_reaper();
     }
@@ -259,8 +290,11 @@ pub fn run(id: &'static str, tier: Tier, seed: u64, replay: Option<&str>) -> i32
 fn replay_crash(id: &'static str, path: &str, tier: Tier) -> i32 {
     let doc: Value = serde_json::from_str(&std::fs::read_to_string(path).expect("read replay")).expect("parse replay");
     let case: Case = serde_json::from_value(doc["case"].clone()).expect("case");
-    // 1. the saved image itself
+    // 1. the saved image itself. It was written by the tree the failure was found on: if that
+    // tree's write path was at fault, the image is not a state this tree can reach, so a failure
+    // to open it is reported but only counts together with a reproduction by re-execution (2.)
     let mut code = 0;
+    let mut image_fails = false;
     if let Some(h) = doc["image_deflate_hex"].as_str() {
         if let Ok(img) = miniz_oxide::inflate::decompress_to_vec(&unhex(h)) {
             if !img.is_empty() {
@@ -269,15 +303,23 @@ fn replay_crash(id: &'static str, path: &str, tier: Tier) -> i32 {
                     Err(e) => {
                         println!("replay: saved image fails to open: {e}");
                         if doc["signature"].as_str().is_some_and(|s| s.starts_with("open-failed")) {
-                            code = 1;
+                            image_fails = true;
                         }
                     }
                 }
             }
         }
     }
-    // 2. the workload, re-executed and re-explored (up to 5 times: traces are schedule dependent)
-    for _ in 0..5 {
+    // 2. the workload, re-executed and re-explored (up to 8 times: traces are schedule dependent)
+    let mut bud = budget(tier);
+    if case.cfg.dev.blocks() > 3000 {
+        bud.max_points = 32;
+        bud.tail_only = true;
+        bud.single_flips = 2;
+        bud.extra_masks = 1;
+        bud.nested_per_workload = 0;
+    }
+    for _ in 0..8 {
         if code != 0 {
             break;
         }
@@ -286,10 +328,13 @@ fn replay_crash(id: &'static str, path: &str, tier: Tier) -> i32 {
             continue;
         }
         let mut st = CrashStats::default();
-        if let Some(f) = crash::explore(&run, &case, id, &budget(tier), &mut st, 0) {
+        if let Some(f) = crash::explore(&run, &case, id, &bud, &mut st, 0) {
             println!("replay: [{}] {}", f.signature, f.msg);
             code = 1;
         }
+    }
+    if image_fails && code == 0 {
+        println!("replay: the saved image still does not open, but no re-execution of the workload on this tree reaches such a state: not counted");
     }
     env::wait_reaper();
     if code == 1 {
